@@ -22,7 +22,7 @@ RULE = ("case = (adverb, verb, operand(s)): 16 adverb forms x verbs {arithmetic 
 ASSUMPTIONS = ["a single application of the verb is performed by the real interpreter (p VERB q / VERB(p;q)) - verb defects belong to C01",
                "operand shapes the manual leaves undefined (each-2 with one atom and one list, n=0 scans, dictionaries outside each) are not judged",
                "iteration adverbs are run only with verbs / predicates that terminate within 200 steps in the model"]
-MIN_COUNTS = {"quick": {"nontrivial": 3500, "verb_applications_by_model": 7000}, "thorough": {"nontrivial": 6500, "verb_applications_by_model": 13000}}
+MIN_COUNTS = {"quick": {"nontrivial": 3500, "verb_applications_by_model": 7000, "rebind_evaluations": 80}, "thorough": {"nontrivial": 6500, "verb_applications_by_model": 13000, "rebind_evaluations": 600}}
 CASE_TIMEOUT = 300
 MEM_LIMIT_GB = 6
 
@@ -96,6 +96,22 @@ def cases(tier, seed):
     for a in [L([I(1), L([I(2), L([I(3), L([I(4)]), I(5)]), I(6)]), I(7)]), L([L([I(1)]), L([L([I(2)])])]), L([I(1), I(2)])]:
         out.append({"adv": "chain", "a1": "over", "a2": "converge", "verb": ("op", ","), "a": a})
         out.append({"adv": "chain", "a1": "over", "a2": "scan_converging", "verb": ("op", ","), "a": a})
+    # a named verb that is re-bound between two evaluations of the same call site (same text, or the same function body):
+    # the adverb must apply the definition current at each evaluation
+    d2 = ["{x+y}", "{x*y}", "{y-x}", "{x,y}", "dsub", "pf2", "{x}"]
+    d1 = ["{x+1}", "{-x}", "{x,x}", "pf1", "hproj1", "{x*x}"]
+    nums = [L([I(3), I(1), I(2)]), L([I(10), I(2), I(3), I(4)]), L([R(1.5), R(2.0)]), L([I(5)]), L([L([I(1), I(2)]), L([I(3), I(4)])])]
+    nreb = 5 if tier == "quick" else 40
+    for adv in ("over", "scan_over", "each_pair", "over_neutral", "scan_over_neutral", "each_left", "each_right", "each2", "each", "iterate"):
+        for _ in range(nreb):
+            pool = d1 if adv in ("each", "iterate") else d2
+            defs = rng.sample(pool, 2) + ([rng.choice(pool)] if rng.random() < 0.3 else [])
+            c = {"adv": adv, "verb": ("lam", "nf"), "a": rng.choice(nums), "rebind": defs, "via": rng.choice(["text", "fn", "fn"])}
+            if adv in ("over_neutral", "scan_over_neutral", "each_left", "each_right", "each2"):
+                c["l"] = rng.choice([I(10), L([I(7), I(8)]), I(1)]) if adv != "each2" else rng.choice(nums)
+            if adv == "iterate":
+                c["n"] = rng.choice([1, 2, 3])
+            out.append(c)
     for c in out:
         c["verb"] = list(c["verb"])
     return out
@@ -171,7 +187,66 @@ def _operand_text(k, c, name):
         return name
 
 
+def _run_rebind(case):
+    """The same call site evaluated after each re-binding of the named verb nf."""
+    res = {"nontrivial": False, "counters": {}, "violations": []}
+    cnt = res["counters"]
+    k = _mkinterp()
+    adv, a = case["adv"], case["a"]
+    counter = [0]
+    M = Model(mklist=lambda items: k._backend.kg_asarray(list(items)),
+              equal=lambda x, y: same(_norm(canon(x)), _norm(canon(y)), "match") is None,
+              truth=lambda x: not (canon(x) in (["I", 0], ["R", 0.0], ["L", []], ["S", ""])))
+    av = kl.topy(a, k)
+    at = render(a)
+    v = ("lam", "nf")
+    dy_left = adv in ("over_neutral", "scan_over_neutral", "each_left", "each_right", "each2")
+    if dy_left:
+        lv, lt = kl.topy(case["l"], k), render(case["l"])
+    if adv == "iterate":
+        expr, body, call = "%d nf:*%s" % (case["n"], at), "{%d nf:*x}" % case["n"], "g(%s)" % at
+        model = lambda: M.iterate(_applier(k, v, 1, counter), case["n"], av)
+    elif adv == "each":
+        expr, body, call = "nf'%s" % at, "{nf'x}", "g(%s)" % at
+        model = lambda: M.each(_applier(k, v, 1, counter), av)
+    elif dy_left:
+        expr, body, call = "%s nf%s%s" % (lt, ADV_TEXT[adv], at), "{x nf%sy}" % ADV_TEXT[adv], "g(%s;%s)" % (lt, at)
+        model = lambda: getattr(M, adv)(_applier(k, v, 2, counter), lv, av)
+    else:
+        expr, body, call = "nf%s%s" % (ADV_TEXT[adv], at), "{nf%sx}" % ADV_TEXT[adv], "g(%s)" % at
+        model = lambda: getattr(M, adv)(_applier(k, v, 2, counter), av)
+    text = expr if case["via"] == "text" else call
+    res["key"] = "%s|%s|%s" % (text, case["via"], ">".join(case["rebind"]))
+    res["show"] = {"expression": text, "definitions_of_nf": case["rebind"], "via": case["via"], "body": body if case["via"] == "fn" else None}
+    kl.ev(k, "nf::%s" % case["rebind"][0])
+    if case["via"] == "fn":
+        kl.ev(k, "g::%s" % body)
+    for step, d in enumerate(case["rebind"]):
+        kl.ev(k, "nf::%s" % d)
+        try:
+            want = model()
+        except (Unspec, VerbError, RecursionError):
+            cnt["undefined_or_verb_failed"] = 1
+            return res
+        r = kl.ev(k, text)
+        res["nontrivial"] = True
+        cnt["rebind_evaluations"] = cnt.get("rebind_evaluations", 0) + 1
+        cnt["adv:" + adv] = 1
+        sig = "rebind|%s|%s|eval#%d" % (adv, case["via"], min(step + 1, 2))
+        if r[0] != "ok":
+            res["violations"].append({"sig": sig + "|raises:" + r[1], "what": "%s with nf::%s raised %s" % (text, d, r[1]), "detail": res["show"]})
+            return res
+        dd = same(_norm(canon(r[1])), _norm(canon(want)), "match")
+        if dd:
+            res["violations"].append({"sig": sig + "|" + dd, "what": "%s evaluated after nf::%s (definitions so far %s) returned %s; the expansion with the current nf gives %s" % (
+                text, d, case["rebind"][: step + 1], brief(_norm(canon(r[1]))), brief(_norm(canon(want)))), "detail": res["show"]})
+            return res
+    return res
+
+
 def run_case(ctx, case):
+    if case.get("rebind"):
+        return _run_rebind(case)
     res = {"nontrivial": False, "counters": {}, "violations": []}
     cnt = res["counters"]
     k = _mkinterp()
